@@ -27,6 +27,70 @@ CORPUS = os.path.join(common.CORPUS_DIR, PROP)
 # real-code plumbing
 
 
+class CaseTimeout(Exception):
+	"""A single real-code call exceeded its budget (a hang of the real code must become a finding, never a hang of the check)."""
+
+
+class _Budget:
+	"""Per-call wall budget for real-code calls (SIGALRM; the harness runs them in the main thread)."""
+
+	def __init__(self, seconds: float) -> None:
+		self.seconds = seconds
+
+	def __enter__(self) -> '_Budget':
+		import signal
+		self._old = None
+		try:
+			def on_alarm(signum: int, frame: Any) -> None:
+				raise CaseTimeout(f'real-code call exceeded {self.seconds}s')
+			self._old = signal.signal(signal.SIGALRM, on_alarm)
+			signal.setitimer(signal.ITIMER_REAL, self.seconds)
+		except (ValueError, AttributeError):  # not the main thread / no SIGALRM: run unbudgeted
+			self._old = None
+		return self
+
+	def __exit__(self, *a: Any) -> None:
+		import signal
+		if self._old is not None:
+			signal.setitimer(signal.ITIMER_REAL, 0)
+			signal.signal(signal.SIGALRM, self._old)
+
+
+CASE_BUDGET_S = float(os.environ.get('VERIF_C13_CASE_BUDGET', '20'))
+
+
+class _Timed:
+	"""Proxy of a real object whose method calls run under the per-call budget."""
+
+	def __init__(self, obj: Any) -> None:
+		object.__setattr__(self, '_obj', obj)
+
+	def __getattr__(self, name: str) -> Any:
+		attr = getattr(object.__getattribute__(self, '_obj'), name)
+		if not callable(attr):
+			return attr
+
+		def call(*a: Any, **kw: Any) -> Any:
+			with _Budget(CASE_BUDGET_S):
+				return attr(*a, **kw)
+		return call
+
+
+class _Deadline:
+	"""Total wall deadline of one stream / search: the loop stops generating, what was generated is still checked."""
+
+	def __init__(self, ctx: Ctx, quick_s: float, thorough_s: float) -> None:
+		import time
+		self.t_end = time.time() + (thorough_s if ctx.thorough else quick_s)
+		self.hit = False
+
+	def over(self) -> bool:
+		import time
+		if time.time() > self.t_end:
+			self.hit = True
+		return self.hit
+
+
 class _BadOp(Exception):
 	pass
 
@@ -40,8 +104,8 @@ class Real:
 		self.TokenTypes = TokenTypes
 		self.marker = SpecialSymbols.OpUnaryMinus.value
 		self.defs = {'py': TokenDefinition(), 'gram': gram_tokenizer()._definition}
-		self.lexers = {k: Lexer(d) for k, d in self.defs.items()}
-		self.tokenizers = {k: Tokenizer(definition=d) for k, d in self.defs.items()}
+		self.lexers = {k: _Timed(Lexer(d)) for k, d in self.defs.items()}
+		self.tokenizers = {k: _Timed(Tokenizer(definition=d)) for k, d in self.defs.items()}
 		self.type_values = sorted({m.value for m in TokenTypes.__members__.values()})
 
 	def show_tok(self, t: Any) -> str:
@@ -67,7 +131,8 @@ class Real:
 			if kind == 'domain':
 				return f'ok {lexer.analyze_domain(op[1], int(op[2])).value}'
 			if kind == 'map':
-				m = self.Token.SourceMap.make(op[1], int(op[2]), int(op[3]))
+				with _Budget(CASE_BUDGET_S):
+					m = self.Token.SourceMap.make(op[1], int(op[2]), int(op[3]))
 				return f'ok {m.begin_line},{m.begin_column},{m.end_line},{m.end_column}'
 			if kind.startswith('p.'):
 				fn = {'p.ws': lexer.parse_white_spece, 'p.comment': lexer.parse_comment, 'p.quote': lexer.parse_quote,
@@ -104,7 +169,7 @@ class Real:
 	def significant_fresh(self, src: str) -> list[tuple[str, str]]:
 		"""The same through a brand-new Tokenizer (no shared instance, no history)."""
 		from rogw.tranp.implements.syntax.tranp.tokenizer import Tokenizer
-		return [(t.type.name, t.string) for t in Tokenizer().parse(src)]
+		return [(t.type.name, t.string) for t in _Timed(Tokenizer()).parse(src)]
 
 	def pipeline(self, toks: list[Any]) -> list[tuple[str, str]]:
 		"""_rebuild(post_filter(raw tokens) + [EOF]) as Tokenizer.parse composes them, simplified."""
@@ -277,17 +342,27 @@ def corpus_sources() -> list[tuple[str, dict[str, Any]]]:
 
 def stream_lex(ctx: Ctx, real: Real) -> Stream:
 	rng = ctx.sub_rng('lex')
+	dl = _Deadline(ctx, 90, 900)
 	cases = []
 	for fn, rec in corpus_sources():
+		if dl.over():
+			ctx.notes.append(f"deadline hit in stream_lex: generation stopped early (what was generated is still checked)")
+			break
 		cases.append(source_case(real, rng, rec.get('definition', 'py'), rec['source'], {'kind': f'corpus:{fn}'}, 6))
 	flavours = ['subset', 'subset', 'subset', 'wide', 'wide', 'hazard', 'over-indent', 'triple-single']
 	n = ctx.scale(160, 1400)
 	for i in range(n):
+		if dl.over():
+			ctx.notes.append(f"deadline hit in stream_lex: generation stopped early (what was generated is still checked)")
+			break
 		fl = flavours[i % len(flavours)]
 		# the list-based model indexes in O(offset): source sizes are kept where the driver stays within minutes
 		src, desc = gen_source(rng, fl, 1 + (i * 7) % ctx.scale(12, 14))
 		cases.append(source_case(real, rng, 'py', src, desc, 8))
 	for i in range(ctx.scale(30, 300)):
+		if dl.over():
+			ctx.notes.append(f"deadline hit in stream_lex: generation stopped early (what was generated is still checked)")
+			break
 		src = gen_gram_source(rng)
 		cases.append(source_case(real, rng, 'gram', src, {'kind': 'gram', 'max_depth': 0}, 8))
 	st = common.correspond('lex', cases, 'lex', classify=lambda d: f"{d['kind'].split(':')[0]}/depth{d.get('max_depth', 0)}")
@@ -300,10 +375,14 @@ def stream_lex(ctx: Ctx, real: Real) -> Stream:
 
 def stream_real(ctx: Ctx, real: Real) -> Stream:
 	rng = ctx.sub_rng('lex-real')
+	dl = _Deadline(ctx, 60, 600)
 	cases = []
 	files = common.repo_py_files('rogw/tranp', 'tests/unit/rogw/tranp/implements/syntax')
 	rng.shuffle(files)
 	for f in files[:ctx.scale(10, 60)]:
+		if dl.over():
+			ctx.notes.append(f"deadline hit in stream_real: generation stopped early (what was generated is still checked)")
+			break
 		with open(f, encoding='utf-8') as fh:
 			text = fh.read()
 		lines = text.split('\n')
@@ -334,11 +413,18 @@ def stream_real(ctx: Ctx, real: Real) -> Stream:
 
 def stream_malformed(ctx: Ctx, real: Real) -> Stream:
 	rng = ctx.sub_rng('lex-malformed')
+	dl = _Deadline(ctx, 60, 600)
 	cases = []
 	for i in range(ctx.scale(250, 3000)):
+		if dl.over():
+			ctx.notes.append(f"deadline hit in stream_malformed: generation stopped early (what was generated is still checked)")
+			break
 		src = gen_soup(rng, rng.choice([0, 1, 2, 3, 5, 8, 13, 21, 40]))
 		cases.append(source_case(real, rng, 'py' if i % 5 else 'gram', src, {'kind': 'soup'}, 5))
 	for i in range(ctx.scale(250, 3000)):
+		if dl.over():
+			ctx.notes.append(f"deadline hit in stream_malformed: generation stopped early (what was generated is still checked)")
+			break
 		focus = ['filter', 'rebuild', 'rebuild-clean'][i % 3]
 		toks = gen_token_list(real, rng, focus)
 		dn = 'py' if i % 7 else 'gram'
@@ -413,6 +499,7 @@ def shrink_program(prog: list[G.Line], lay: G.Layout, fails: Any) -> tuple[list[
 
 def search_cpython(ctx: Ctx, real: Real) -> SearchResult:
 	rng = ctx.sub_rng('cpython')
+	dl = _Deadline(ctx, 90, 1200)
 	res = SearchResult('Tokenizer().parse(s) == CPython tokenize(s) under the canonical map, on the exact supported lexical subset')
 	hist: Counter[str] = Counter()
 	seen: set[str] = set()
@@ -425,6 +512,9 @@ def search_cpython(ctx: Ctx, real: Real) -> SearchResult:
 		res.findings.append(Finding(key=key, what=f'tranp token sequence differs from CPython ({key})', replay={'source': src, 'origin': origin, **detail}))
 
 	for fn, rec in corpus_sources():
+		if dl.over():
+			ctx.notes.append(f"deadline hit in search_cpython: generation stopped early (what was generated is still checked)")
+			break
 		if rec.get('definition', 'py') != 'py' or not rec.get('cpython_subset', False):
 			continue
 		res.cases += 1
@@ -435,6 +525,9 @@ def search_cpython(ctx: Ctx, real: Real) -> SearchResult:
 			report(key or '?', rec['source'], detail, f'corpus/{fn}')
 	n = ctx.scale(700, 8000)
 	for i in range(n):
+		if dl.over():
+			ctx.notes.append(f"deadline hit in search_cpython: generation stopped early (what was generated is still checked)")
+			break
 		# escape hazards (even backslash runs / an escaped quote before the closing quote) are part of the subset since efe3cdf
 		opts = G.GenOpts(escape_hazards=0.06 if i % 2 == 0 else 0.0)
 		prog = G.gen_program(rng, opts, 1 + (i * 5) % ctx.scale(14, 30))
@@ -478,12 +571,16 @@ def relayout(rng: random.Random, prog: list[G.Line], lay: G.Layout, dims: list[s
 
 def search_layout(ctx: Ctx, real: Real) -> SearchResult:
 	rng = ctx.sub_rng('layout')
+	dl = _Deadline(ctx, 90, 1200)
 	res = SearchResult('tokens(w(s)) == tokens(s) for layout rewrites w (comments, blank lines, trailing spaces, spaces around operators except after a minus, tab vs any consistent space width); INDENT/DEDENT balance')
 	hist: Counter[str] = Counter()
 	seen: set[str] = set()
 	keys: set[str] = set()
 	n = ctx.scale(350, 3000)
 	for i in range(n):
+		if dl.over():
+			ctx.notes.append(f"deadline hit in search_layout: generation stopped early (what was generated is still checked)")
+			break
 		opts = G.GenOpts(escape_hazards=0.05 if i % 3 == 0 else 0.0)
 		prog = G.gen_program(rng, opts, 1 + (i * 3) % ctx.scale(14, 30))
 		lay = G.gen_layout(rng, prog)
@@ -566,6 +663,7 @@ def search_token_layout(ctx: Ctx, real: Real) -> SearchResult:
 	"""`C13.layout_tokens_statement` on the real code: insert / remove one WhiteSpace or Comment raw token in a raw token list
 	of the lexer's shape (both lists `lexShaped`), compare _rebuild(post_filter(.) + [EOF])."""
 	rng = ctx.sub_rng('token-layout')
+	dl = _Deadline(ctx, 60, 900)
 	res = SearchResult('token-level layout law (Lean: layout_tokens_statement): inserting/removing one WhiteSpace or Comment raw token in a lexer-shaped raw token list leaves _rebuild . post_filter unchanged')
 	hist: Counter[str] = Counter()
 	seen: set[str] = set()
@@ -573,6 +671,9 @@ def search_token_layout(ctx: Ctx, real: Real) -> SearchResult:
 	T = real.TokenTypes
 	mk = lambda ty, s: real.Token(ty, s, real.Token.SourceMap(0, 0, 0, 0))
 	for i in range(ctx.scale(250, 2500)):
+		if dl.over():
+			ctx.notes.append(f"deadline hit in search_token_layout: generation stopped early (what was generated is still checked)")
+			break
 		src, _ = gen_source(rng, 'subset', 1 + (i * 3) % 12)
 		try:
 			toks = real.lexers['py'].parse_impl(src)
@@ -738,6 +839,7 @@ def search_history(ctx: Ctx, real: Real) -> SearchResult:
 	at the address of an earlier one), with equal total length but different line structure."""
 	import gc
 	rng = ctx.sub_rng('history')
+	dl = _Deadline(ctx, 60, 900)
 	res = SearchResult('span law under a history: sources built on the fly, lexed on shared instances and dropped one by one (equal length, different line structure; address reuse), every token span against an independent computation from the text')
 	hist: Counter[str] = Counter()
 	keys: set[str] = set()
@@ -748,6 +850,9 @@ def search_history(ctx: Ctx, real: Real) -> SearchResult:
 	n = ctx.scale(360, 3000)
 	gc.collect()
 	for i in range(n):
+		if dl.over():
+			ctx.notes.append(f"deadline hit in search_history: generation stopped early (what was generated is still checked)")
+			break
 		total = totals[(i // 8) % len(totals)]
 		recipe = {'seed': rng.randrange(1 << 30), 'kind': kinds[i % 4] if i % 3 else rng.choice(kinds), 'total': total,
 			'mode': 'tokenizer' if i % 5 == 4 else 'lexer'}
@@ -775,14 +880,95 @@ def search_history(ctx: Ctx, real: Real) -> SearchResult:
 	return res
 
 
+def search_certified(ctx: Ctx, real: Real) -> SearchResult:
+	"""The positional layout theorems as an oracle on the real code: the Lean checker (driver ops lay.*) decides for
+	(source, position, inserted text) whether C13.layout_*_by_position applies; wherever it says yes, the REAL
+	Tokenizer().parse must give the same (type, string) sequence for both sources."""
+	rng = ctx.sub_rng('certified')
+	dl = _Deadline(ctx, 60, 600)
+	res = SearchResult('theorem-certified layout rewrites on the real code: where the Lean checker of C13.layout_*_by_position accepts (source, position, inserted text), real Tokenizer().parse(src) == parse(src with the insertion) as (type, string) sequences')
+	hist: Counter[str] = Counter()
+	keys: set[str] = set()
+	probes: list[tuple[str, str, str, int, str]] = []  # (kind, src, src2, pos, op line)
+	n = ctx.scale(40, 400)
+	for i in range(n):
+		if dl.over():
+			ctx.notes.append('deadline hit in search_certified: generation stopped early')
+			break
+		src, _ = gen_source(rng, 'subset', 1 + (i * 3) % 6)
+		if len(src) > 500:
+			continue
+		try:
+			toks = real.lexers['py'].parse_impl(src)
+		except Exception:  # noqa: BLE001 - the other searches report a lexer that raises on the subset
+			continue
+		ends = []
+		pos = 0
+		for t in toks:
+			pos += 1 if (t.type == real.TokenTypes.Minus and t.string == real.marker) else len(t.string)
+			ends.append(pos)
+		line_ends = [k for k, c in enumerate(src) if c == '\n'] + [len(src)]
+		for _ in range(8):
+			kind = rng.choice(['blank', 'blank', 'blank', 'blankline', 'comment', 'cline', 'anywhere'])
+			if kind == 'blank':
+				p_ = rng.choice(ends) if ends else 0
+				w = rng.choice([' ', '  ', '\t', ' \t'])
+				probes.append((kind, src, src[:p_] + w + src[p_:], p_, f'lay.blank\t{hx(src)}\t{p_}\t{hx(w)}'))
+			elif kind == 'blankline':
+				p_ = rng.choice(ends) if ends and rng.random() < 0.5 else rng.choice(line_ends)
+				w = rng.choice(['\n', '\n  ', '  \n\t', '\n\n'])
+				probes.append((kind, src, src[:p_] + w + src[p_:], p_, f'lay.blank\t{hx(src)}\t{p_}\t{hx(w)}'))
+			elif kind == 'anywhere':
+				p_ = rng.randint(0, len(src))
+				w = rng.choice([' ', '\n', '\t'])
+				probes.append((kind, src, src[:p_] + w + src[p_:], p_, f'lay.blank\t{hx(src)}\t{p_}\t{hx(w)}'))
+			elif kind == 'comment':
+				p_ = rng.choice(line_ends) if rng.random() < 0.8 else (rng.choice(ends) if ends else 0)
+				w, body = rng.choice([' ', '  ', '\t']), rng.choice([' c', '', ' x = (1', " it's"])
+				probes.append((kind, src, src[:p_] + w + '#' + body + src[p_:], p_, f'lay.comment\t{hx(src)}\t{p_}\t{hx(w)}\t{hx(body)}'))
+			else:
+				p_ = rng.choice(line_ends)
+				ind, body = rng.choice(['', ' ', '    ', '\t\t', '         ']), rng.choice([' c', '', '!', ' "q'])
+				probes.append((kind, src, src[:p_] + '\n' + ind + '#' + body + src[p_:], p_, f'lay.cline\t{hx(src)}\t{p_}\t{hx(ind)}\t{hx(body)}'))
+	verdicts = common.lean_driver('lex', ['def\tpy', *[p[4] for p in probes]], timeout=ctx.scale(240, 900))[1:] if probes else []
+	seen: set[str] = set()
+	for (kind, src, src2, p_, _), v in zip(probes, verdicts):
+		res.cases += 1
+		seen.add(src2)
+		if v not in ('true', 'false'):
+			hist[f'{kind}:model-{v[:20]}'] += 1
+			continue
+		try:
+			same: Any = real.significant(src) == real.significant(src2)
+		except Exception as e:  # noqa: BLE001
+			same = exc_enum(e)
+		if v == 'true':
+			hist[f'{kind}:certified'] += 1
+			if same is not True and f'certified-rewrite:{kind}' not in keys:
+				keys.add(f'certified-rewrite:{kind}')
+				res.findings.append(Finding(key=f'certified-rewrite:{kind}', what='a layout rewrite the Lean theorem certifies changes the real token sequence',
+					replay={'source': src, 'rewritten': src2, 'position': p_, 'real': same if same is not False else 'token sequences differ'}))
+		else:
+			hist[f"{kind}:refused/{'real-equal' if same is True else 'real-differs'}"] += 1
+	res.distinct = len(seen)
+	res.histogram = dict(hist)
+	res.note = ('`certified` = the checker accepted and the theorem applies (real equality is then demanded); `refused/real-equal` measures what the theorems do not cover '
+		'(e.g. newlines inserted inside brackets, a blank after a white space token); `refused/real-differs` are genuine non-layout changes (inside a token, after a unary minus, a newline between tokens)')
+	return res
+
+
 def search_laws(ctx: Ctx, real: Real) -> SearchResult:
 	rng = ctx.sub_rng('laws')
+	dl = _Deadline(ctx, 60, 900)
 	res = SearchResult('concat law (raw token strings, unary marker read as "-", reproduce the source) and span law (each raw token\'s (line, col) span addresses its text) on the real Lexer.parse_impl')
 	hist: Counter[str] = Counter()
 	seen: set[str] = set()
 	keys: set[str] = set()
 	n = ctx.scale(500, 5000)
 	for i in range(n):
+		if dl.over():
+			ctx.notes.append(f"deadline hit in search_laws: generation stopped early (what was generated is still checked)")
+			break
 		r = i % 5
 		dn = 'py'
 		must_lex = r == 0
@@ -843,6 +1029,8 @@ STATEMENTS = {
 	'first_token_spec / lex_meets_spec': 'maximal munch, declaratively: dispatch = first accepting domain of the analyse order; run tokens are the longest prefix inside their alphabet; symbols the longest combined symbol (3, then 2 characters) else one character; comments / literals by the two rules above; the whole raw token sequence of parse_impl is described token by token (lex ⊆ spec)',
 	'layout_closure': 'LayoutEq = equivalence generated by the layout steps (blanks / blank lines, trailing comment, comment-only line, inserted or removed, and re-indentation); layout-equivalent sources have the same Tokenizer.parse up to source maps',
 	'source_map_pure': 'the modelled SourceMap.make is a function of (source, begin, end) with no state argument; tied by the translator\'s purity scan of token.py (module/class-level mutable state, global, caching decorators are refused) and by the history search',
+	'first_token_spec2 / first_token_unique / lex_unique': 'lex = spec: the strengthened declarative specification (dispatch, maximal munch, type and string from the kindOf table, end of an unterminated literal = right after the last escaped occurrence of the closer) holds of parse_impl\'s raw token sequence, and that sequence is the ONLY one satisfying it',
+	'layout_blank_by_position / layout_comment_by_position / layout_comment_line_by_position': 'the layout rewrites described syntactically (insert w at offset pos): whenever the decidable checker passes (it computes the TokPrefix evidence by lexing the prefix token by token: whole, terminated tokens, the last one tolerating white space), Tokenizer.parse is unchanged up to source maps; examples decided in the kernel',
 }
 
 
@@ -859,13 +1047,13 @@ def run(ctx: Ctx) -> int:
 	with ctx.timed('correspondence'):
 		streams = [stream_lex(ctx, real), stream_real(ctx, real), stream_malformed(ctx, real)]
 	with ctx.timed('search'):
-		searches = [search_cpython(ctx, real), search_layout(ctx, real), search_token_layout(ctx, real), search_laws(ctx, real), search_history(ctx, real)]
+		searches = [search_cpython(ctx, real), search_layout(ctx, real), search_token_layout(ctx, real), search_laws(ctx, real), search_history(ctx, real), search_certified(ctx, real)]
 	return common.finish(ctx, proof, streams, searches,
 		translate_ok=translate_ok, translate_msg=translate_msg,
 		statements=STATEMENTS,
 		partial={
 			'proved': 'concat / progress / totality / span for parse_impl; INDENT/DEDENT accounting of _rebuild (and its falsity for over-indented blocks); closed form of post_filter; the layout sentence at token level in full and at character level end to end for blanks, blank lines, trailing comments, comment-only lines and the indentation unit (each rewrite step at a token boundary; composition by transitivity)',
-			'not_proved': 'spec ⊆ lex (uniqueness of the token sequence satisfying LexSpec) is not proved: TokSpec does not fix the end of an unterminated literal; newlines inserted INSIDE brackets are not a LayoutStep (they change norm and are only dropped by _rebuild); removal of blanks that are the only separation of two tokens is covered only in the direction "insert" (the equalities are symmetric, but the premise is stated on the source without the blanks); a comment directly after a token without a blank; layout changes inside brackets are covered (line breaks there are ordinary raw tokens) but not singled out; unterminated string literals are excluded by hypothesis; equality with CPython stays search-only',
+			'not_proved': 'newlines inserted INSIDE brackets are not a LayoutStep (they change norm and are only dropped by _rebuild); removal of blanks that are the only separation of two tokens is covered only in the direction "insert" (the equalities are symmetric, but the premise is stated on the source without the blanks); a comment directly after a token without a blank; layout changes inside brackets are covered (line breaks there are ordinary raw tokens) but not singled out; unterminated string literals are excluded by hypothesis; equality with CPython stays search-only',
 			'correspondence_only': 'the model is the code (three streams); post filter regex semantics (re.split) for the one pattern TokenDefinition ships',
 			'search_only': 'equality with CPython tokenize on the supported subset; the character-level layout rewrites (comments, blank lines, spaces around operators)',
 		},
